@@ -18,7 +18,8 @@ fn pre_state<T: Q, const N: usize>(pre: Pre, tables: Tables) -> (T, Ghost<N>, Ta
 }
 
 // ------------------------------------------------------------------------------------
-// iter_mut: a symbolic prefix is consumed from the front, every yielded priority and
+// iter_mut: a symbolic number of elements is consumed (from either end where the iterator
+// is double-ended, symbolic choice per step), every yielded priority and
 // payload is overwritten, then the iterator is dropped (heap rebuilt) or leaked.
 // ------------------------------------------------------------------------------------
 pub fn iter_mut_prefix<T: Q, const N: usize>(pre: Pre, tables: Tables, g: Grp, forget: bool, via_ref: bool) {
@@ -26,12 +27,18 @@ pub fn iter_mut_prefix<T: Q, const N: usize>(pre: Pre, tables: Tables, g: Grp, f
     let c = sym::below(N as u8 + 2) as usize;
     let mut want = want0;
     let mut seen: u32 = 0;
+    let mut used_back = false;
+    let mut used_front = false;
     {
         let mut it = if via_ref { q.iter_mut_ref() } else { q.iter_mut_q() };
         let mut step = 0;
         while step < N + 1 {
             if step < c {
-                match it.next() {
+                // where the iterator offers it, every step is taken from either end
+                let back = if <T::IterMut<'_> as MutIt>::DOUBLE_ENDED { sym::bool() } else { false };
+                used_back |= back;
+                used_front |= !back;
+                match if back { it.back() } else { it.next() } {
                     None => assert!(step >= N, "ITER: iter_mut yields every element before None"),
                     Some((i, p)) => {
                         assert!(step < N, "ITER: iter_mut yields no more elements than are stored");
@@ -66,6 +73,7 @@ pub fn iter_mut_prefix<T: Q, const N: usize>(pre: Pre, tables: Tables, g: Grp, f
     cover!(c > 0 && c < N, "proper prefix consumed");
     cover!(c >= N, "everything consumed");
     cover!(c == 0, "nothing consumed");
+    cover!(!<T::IterMut<'_> as MutIt>::DOUBLE_ENDED || N == 0 || (used_back && !used_front), "consumed from the back only");
 }
 
 // ------------------------------------------------------------------------------------
